@@ -13,6 +13,7 @@ PROP = {
              "statement model. Non-trivial: a roll-over happens while >=1 enqueuer is in the hand-off gap, or >=2 waiters compete for fewer free slots than "
              "waiters at a roll-over; distinct = canonical JSON of configuration + schedule"),
     "assumptions": [
+        "plugin unit: in one case of three the priority groups are called by free-text header values (gold / 'eu,us' / 'team a; q=1, b') instead of p0-p2: a request belongs to the group whose configured name equals its header value",
         "backlog unit: the queue gets the zero-value logger or a debug / trace level logger whose output is discarded, and in half of the cases the requests_in_queue gauge is read (Counts) before every roll-over",
         "unit TestLargeBacklogOrder: 20-390 waiters (priorities 1-5, half of them with a 2.5 s time-to-live, the rest one hour) arriving 1 ms apart in two batches on a queue of 1-3 per 10 s; the clock moves to 1 ms before each roll-over first, so that every waiter whose time-to-live ended has taken notice, then across it; each window must release exactly its quota: the best (priority, arrival) waiters alive",
         "unit TestConcurrentFirstArrivals: 2-10 arrivals run freely on real goroutines into a remedy the plugin has no queue for yet (1-4 remedies per case, quota 1-3, queue size 1-6, the queue factory taking 0-2 ms of real time); the virtual clock stands still until every arrival has returned or parked, then only the verdicts of that instant are judged: released <= quota, waiting <= size, rejected at once only if arrivals > quota + size",
